@@ -409,6 +409,57 @@ def r147(ctx):
         raise AnalysisError("R-14.7: no open() call in PathStorage.output_path_files")
 
 
+def r148(ctx):
+    """load_path returns one frame per row of traj.txt: in the loop over the rows, every
+    iteration adds its frame through an operation that cannot refuse. `Path.append` refuses
+    (returns False) once the path holds `maxlen` frames - and a freshly constructed Path has the
+    default limit, not the run's `maxlength`, which load_paths_from_disk sets only afterwards."""
+    rid = "R-14.8"
+    tree = ctx.tree
+    f = tree.func(PATH, "load_path")
+    fl = flow_of(f)
+    cfg = fl.cfg
+    loops = [l for l in walk_local(f) if isinstance(l, ast.For) and any(isinstance(c, ast.Call) and last_name(c) == "System" for c in ast.walk(l))]
+    if not loops:
+        raise AnalysisError("R-14.8: the frame-building loop of load_path was not found")
+    pa = tree.func(PATH, "Path.append")
+    pcfg = cfg_of(pa)
+    adds = {nd for c in walk_local(pa) if isinstance(c, ast.Call) and isinstance(c.func, ast.Attribute) and c.func.attr == "append" for nd in pcfg.nodes_of(c)}
+    refuses = pcfg.reaches(pcfg.entry, pcfg.exit, avoid=adds, labels_excluded=("exc",))
+    for L in loops:
+        frames = {t.id for st in ast.walk(L) if isinstance(st, ast.Assign) and isinstance(st.value, ast.Call) and last_name(st.value) == "System" for t in st.targets if isinstance(t, ast.Name)}
+        apps = [c for c in ast.walk(L) if isinstance(c, ast.Call) and isinstance(c.func, ast.Attribute) and c.func.attr == "append" and c.args and isinstance(c.args[0], ast.Name) and c.args[0].id in frames]
+        if not apps:
+            ctx.bad(rid, L, "load_path builds frames that it never adds to the path", construct="frame loop without append")
+            continue
+        head = cfg.node_of(L)
+        app_nodes = {nd for c in apps for nd in cfg.nodes_of(c)}
+        if head.id in cfg.reachable(head, avoid=app_nodes, labels_excluded=("exc",)) and any(True for _ in [1]):
+            body_first = [s for s, lab in cfg.succ[head.id] if lab not in ("exc", "exit", "loop-exit")]
+            # an iteration that reaches the next one without an append
+            skipping = any(head.id in cfg.reachable(cfg.nodes[b], avoid=app_nodes, labels_excluded=("exc",)) for b in body_first if cfg.nodes[b].ast is not None and any(cfg.nodes[b].ast is x for x in ast.walk(L) if x is not L))
+            if skipping:
+                ctx.bad(rid, L, "an iteration of load_path's frame loop can finish without adding its frame: the loaded path is shorter than the stored one", construct="frame loop: iteration without append")
+                continue
+        for c in apps:
+            recv = c.func.value
+            if isinstance(recv, ast.Attribute) and recv.attr == "phasepoints":
+                ctx.ok(rid, c, "every row's frame is appended to the frame list itself (list.append cannot refuse): same length after reloading")
+                continue
+            srcs = fl.sources(recv, cfg.node_of(c))
+            is_path = srcs and all(kind == "expr" and isinstance(node, ast.Call) and last_name(node) in ("Path", "empty_path") for kind, node, sat, _ in srcs)
+            st = getattr(c, "_parent", None)
+            discarded = isinstance(st, ast.Expr)
+            if is_path and refuses and discarded:
+                limit = [k for kind, node, sat, _ in srcs for k in node.keywords if k.arg == "maxlen"]
+                ctx.bad(rid, c, "load_path adds the stored frames with Path.append, which silently refuses once the path holds `maxlen` frames, and ignores the result; the path was just constructed with " + ("the limit " + short(limit[0].value, 30) if limit else "the default limit (100000)") + ", the run's maxlength is applied only later: a stored path longer than that comes back truncated (different length, end point and last frames)",
+                        construct=short(c, 60))
+            elif is_path and refuses:
+                ctx.ok(rid, c, "Path.append's result is kept (a refusal is visible to the caller)")
+            else:
+                ctx.ok(rid, c, "frames are added by an operation that cannot refuse")
+
+
 def run(ctx):
     ctx.rule("R-14.5", "path-file writers write values as they are: 0.0 is never mistaken for a missing value", floor=1)
     ctx.rule("R-14.7", "the text files of a stored path are opened for writing from scratch (load_path reads the first block only)", floor=1)
@@ -423,11 +474,15 @@ def run(ctx):
     ctx.attempt(r144, ctx)
     ctx.attempt(r145, ctx)
     ctx.attempt(r147, ctx)
+    ctx.rule("R-14.8", "load_path adds one frame per stored row by an operation that cannot refuse (same length after reloading)", floor=1)
+    ctx.attempt(r148, ctx)
     from .shared import stale_loop_variable
     ctx.attempt(stale_loop_variable, ctx, "R-14.6", [FORMATTER, PATH], None, " (another frame / file than the one being stored or loaded is handled)")
 
 
 VARIANTS = [
+    B("c14-load-through-refusing-append", PATH, "        frame.vel_rev = snapshot[3]\n        path.phasepoints.append(frame)", "        frame.vel_rev = snapshot[3]\n        path.append(frame)", "R-14.8", control=True, why="seeded C14_f"),
+    K("c14-keep-load-append-alias", PATH, "    path = Path()\n    for snapshot, order in zip(traj[\"data\"], orderdata):", "    path = Path()\n    frames = path.phasepoints\n    for snapshot, order in zip(traj[\"data\"], orderdata):", also=[(PATH, "        frame.vel_rev = snapshot[3]\n        path.phasepoints.append(frame)", "        frame.vel_rev = snapshot[3]\n        frames.append(frame)")]),
     B("c14-path-files-appended", FORMATTER, 'with open(full_path, mode="w", encoding="utf8") as output:', 'with open(full_path, mode="a", encoding="utf8") as output:', "R-14.7", control=True, why="seeded C14_c"),
     K("c14-keep-path-files-positional-mode", FORMATTER, 'with open(full_path, mode="w", encoding="utf8") as output:', 'with open(full_path, "wt", encoding="utf8") as output:'),
     B("c14-order-line-after-loop", FORMATTER, "        for i, phasepoint in enumerate(path.phasepoints):\n            yield self.format_data(i, phasepoint.order)", "        for i, phasepoint in enumerate(path.phasepoints):\n            pass\n        yield self.format_data(i, phasepoint.order)", "R-14.6", control=True),
